@@ -82,6 +82,22 @@ func registerK8sIntrinsics(e *Engine) {
 		}
 		return tuple{[]value{g}, false, err}
 	})
+	e.reg("(*k8s.io/apimachinery/pkg/runtime.Scheme).New", func(fr *frame, args []value) value {
+		i := fr.i
+		gvk := args[1].(structure)
+		g, v, k := i.concretizeStr(gvk[0]), i.concretizeStr(gvk[1]), i.concretizeStr(gvk[2])
+		for path, gv := range apiGroups {
+			if gv[0] == g && gv[1] == v {
+				if p := i.prog.ImportedPackage(path); p != nil {
+					if tm := p.Type(k); tm != nil {
+						var cell value = zero(tm.Type())
+						return tuple{iface{t: types.NewPointer(tm.Type()), v: &cell}, iface{}}
+					}
+				}
+			}
+		}
+		return tuple{iface{}, i.mkError("no kind \"" + k + "\" is registered for version \"" + g + "/" + v + "\" in scheme")}
+	})
 	e.reg("(*k8s.io/apimachinery/pkg/runtime.Scheme).Recognizes", func(fr *frame, args []value) value {
 		return true
 	})
